@@ -319,7 +319,104 @@ func (f *Fn) sameCS(r *RuleInfo, what string, a, b ast.Node, lock types.Object) 
 	r.SameCS(f, what, a, b, lock, 2)
 }
 
+// R23.6: with an encryption key configured LatestDataKey never answers "no key".
+func ruleR23_6(c *Check) {
+	w := c.W
+	r := c.Rule("R23.6", "E6+E5", 2, "KeyRegistry.LatestDataKey returns nil (= write in plaintext) only when no encryption key is configured: the cached data key is handed out only if it exists (comma-ok lookup in dataKeys, or a key-count / key-id test) besides being young enough; every other success return comes from the key just generated or, read-only, from the stored map",
+		"the age test alone is true on a fresh registry when the rotation period exceeds the time since the Unix epoch (lastCreated is 0): the lookup of data key 0 yields nil, which every writer takes as 'encryption disabled' — user keys and values go to disk in plaintext although an encryption key is configured")
+	f := w.F("badger.KeyRegistry.LatestDataKey")
+	dataKeys := w.Field("badger.KeyRegistry.dataKeys")
+	encKey := w.Field("badger.KeyRegistryOptions.EncryptionKey")
+	rot := w.Field("badger.KeyRegistryOptions.EncryptionKeyRotationDuration")
+	var k keyer
+	n := 0
+	f.walkDeep(func(own *Fn, x ast.Node) bool {
+		rs, ok := x.(*ast.ReturnStmt)
+		if !ok || len(rs.Results) != 2 {
+			return true
+		}
+		gs := w.Guards(own, rs)
+		// literal nil key
+		if id, isId := unparen(rs.Results[0]).(*ast.Ident); isId && id.Name == "nil" {
+			if own == f {
+				// the error result decides: nil key with nil error must be the "no encryption key" case
+				if eid, isE := unparen(rs.Results[1]).(*ast.Ident); isE && eid.Name == "nil" {
+					n++
+					noKey := false
+					for _, g := range gs {
+						if op, ok2 := w.cmpRoles(g.Cond, g.Val, w.lenOf(w.isField(encKey)), w.isConst(0)); ok2 && (op == token.EQL || op == token.LEQ) {
+							noKey = true
+						}
+					}
+					r.Check(noKey, f, k.key("nil key only without an encryption key", w, rs), rs, "LatestDataKey returns (nil, nil) although an encryption key may be configured")
+				}
+			}
+			return true
+		}
+		// a key read from the map under the age test must be known to exist
+		aged := false
+		for _, g := range gs {
+			if w.mentions(g.Cond, rot) {
+				aged = true
+			}
+			if be, isB := g.Cond.(*ast.BinaryExpr); isB {
+				if w.mentions(w.from(be.X), rot) || w.mentions(w.from(be.Y), rot) {
+					aged = true
+				}
+			}
+		}
+		fromMap := false
+		var okVar types.Object
+		org := w.Origin(own, rs.Results[0])
+		if ix, isIx := unparen(org).(*ast.IndexExpr); isIx && w.fieldOf(ix.X) == dataKeys {
+			fromMap = true
+		}
+		// comma-ok form: `dk, ok := kr.dataKeys[id]` defines the returned variable
+		if id, isId := unparen(rs.Results[0]).(*ast.Ident); isId {
+			own.Root().walkDeep(func(g *Fn, m ast.Node) bool {
+				as, isAs := m.(*ast.AssignStmt)
+				if !isAs || len(as.Lhs) != 2 || len(as.Rhs) != 1 {
+					return true
+				}
+				l0, is0 := as.Lhs[0].(*ast.Ident)
+				l1, is1 := as.Lhs[1].(*ast.Ident)
+				if !is0 || !is1 || (w.Use(l0) != w.Use(id) && w.Info.Defs[l0] != w.Use(id)) {
+					return true
+				}
+				if ix, isIx := unparen(as.Rhs[0]).(*ast.IndexExpr); isIx && w.fieldOf(ix.X) == dataKeys {
+					fromMap = true
+					okVar = w.Info.Defs[l1]
+					if okVar == nil {
+						okVar = w.Use(l1)
+					}
+				}
+				return true
+			})
+		}
+		if !fromMap || !aged {
+			return true
+		}
+		n++
+		exists := false
+		for _, g := range gs {
+			if id, isId := g.Cond.(*ast.Ident); isId && g.Val && okVar != nil && w.Use(id) == okVar {
+				exists = true
+			}
+			if op, ok2 := w.cmpRoles(g.Cond, g.Val, w.isField(w.Field("badger.KeyRegistry.nextKeyID")), w.isConst(0)); ok2 && (op == token.GTR || op == token.NEQ) {
+				exists = true
+			}
+			if op, ok2 := w.cmpRoles(g.Cond, g.Val, w.lenOf(w.isField(dataKeys)), w.isConst(0)); ok2 && (op == token.GTR || op == token.NEQ) {
+				exists = true
+			}
+		}
+		r.Check(exists, own, k.key("cached data key handed out only if it exists", w, rs), rs, "the data key looked up in dataKeys is returned under the age test alone: on a fresh registry with a rotation period longer than the time since 1970 this is the nil key 0 and nothing is encrypted")
+		return true
+	})
+	r.Exists(n >= 2, f, "key hand-out sites", nil, "expected the no-encryption return and the cached-key return of LatestDataKey")
+}
+
 func propC23(c *Check) {
+	ruleR23_6(c)
 	ruleR23_5(c)
 	ruleR23_1(c)
 	ruleR23_2(c)
@@ -461,6 +558,7 @@ func propC27(c *Check) {
 	ruleR27_4(c)
 	ruleR28_1(c)
 	ruleR36_2(c)
+	ruleR01_3(c) // the same key@version written by two internal transactions of a batch lands in two L0 tables: the newer table wins
 }
 
 // ---- C30 ----
